@@ -505,46 +505,40 @@ def rule_G(ctx):
     if 'Kernel' not in KCLS or len(KCLS) < 4:
         raise shape_error('kernel classes not found', fk.loc())
 
-    class P(orders.PyStub):
-        isa = ('ENUCoords',)
+    # positions and observations are the repository's own ENUCoords / Obs objects
+    EN = absint.classref(ctx, 'tracklib.core.obs_coords.ENUCoords', fn)
 
-        def __init__(self, x, y, z):
-            self.c = [float(x), float(y), float(z)]
+    class _PosView:
+        """reads the coordinates of a repository position for the checker (getX / getY / getZ / setZ by field)"""
+
+        def __init__(self, p_):
+            self.p = p_
 
         def getX(self):
-            return self.c[0]
+            return self.p.fields['E']
 
         def getY(self):
-            return self.c[1]
+            return self.p.fields['N']
 
         def getZ(self):
-            return self.c[2]
-
-        def setX(self, v):
-            self.c[0] = v
-
-        def setY(self, v):
-            self.c[1] = v
+            return self.p.fields['U']
 
         def setZ(self, v):
-            self.c[2] = v
+            self.p.fields['U'] = v
 
-        def copy(self):
-            return P(*self.c)
+    class _ObsView:
+        def __init__(self, o_):
+            self.o = o_
 
-    class O(orders.PyStub):
-        isa = ('Obs',)
+        @property
+        def position(self):
+            return _PosView(self.o.fields['position'])
 
-        def __init__(self, k, pos):
-            self.k = k
-            self.position = pos
-            self.timestamp = None
-            self.features = []
+    def P(x, y, z):
+        return EN(float(x), float(y), float(z))
 
-        def copy(self):
-            o = O(self.k, self.position.copy())
-            o.features = list(self.features)
-            return o
+    def O(k, pos):
+        return absint.real_obs(ctx, fn, pos, None, k=k)
 
     def track_of(xs, flat=False):
         t = T([O(k, P(v if v == v else 0.0, 2.0 * k, 0.0 if flat else -1.0 * k * k)) for k, v in enumerate(xs)], 'u', 't')
@@ -714,9 +708,9 @@ def rule_G(ctx):
             if not isinstance(tr, orders.Obj):
                 found.setdefault('seq', (fs, 'filter_seq returns the filtered track', {'returned': repr(tr)[:80]}))
                 continue
-            gx = [o.position.getX() for o in tr.fields['_Track__POINTS']]
-            gy = [o.position.getY() for o in tr.fields['_Track__POINTS']]
-            gz = [o.position.getZ() for o in tr.fields['_Track__POINTS']]
+            gx = [o.position.getX() for o in map(_ObsView, tr.fields['_Track__POINTS'])]
+            gy = [o.position.getY() for o in map(_ObsView, tr.fields['_Track__POINTS'])]
+            gz = [o.position.getZ() for o in map(_ObsView, tr.fields['_Track__POINTS'])]
             ys, zs = [2.0 * k for k in range(len(xs))], [-1.0 * k * k for k in range(len(xs))]
             Dw = len(win) // 2
             edge = lambda i: (not bnd) and (i < Dw or i >= len(xs) - Dw)
@@ -741,7 +735,7 @@ def rule_G(ctx):
             continue
         win3 = [0.25, 0.5, 0.25]
         for k_, t_ in enumerate(hist):
-            pts = t_.fields['_Track__POINTS']
+            pts = [_ObsView(o_) for o_ in t_.fields['_Track__POINTS']]
             zin = [0.0] * len(xs) if (k_ == 0) == first_flat and k_ < 2 else zs_
             if k_ == 2:
                 zin = zs_
@@ -757,7 +751,7 @@ def rule_G(ctx):
     # a height missing at the first fix only (NaN), heights elsewhere: z is still smoothed over its valid samples
     for dims in (None, ['x', 'y', 'z'], ['z']):
         t_ = track_of(xs)
-        t_.fields['_Track__POINTS'][0].position.setZ(NANV)
+        _ObsView(t_.fields['_Track__POINTS'][0]).position.setZ(NANV)
         zin = [NANV] + zs_[1:]
         n_cases += 1
         try:
@@ -771,7 +765,7 @@ def rule_G(ctx):
             found.setdefault('seq-fails', (fs, 'filter_seq does not fail', {'track': 'height missing (NaN) at the first fix', 'exception': '%s: %s' % (type(ex).__name__, str(ex)[:160])}))
             continue
         wz = [zin[i] if (i < 1 or i >= len(xs) - 1) else mean_window(zin, [0.25, 0.5, 0.25], i, True) for i in range(len(xs))]
-        gz = [o.position.getZ() for o in t_.fields['_Track__POINTS']]
+        gz = [_ObsView(o).position.getZ() for o in t_.fields['_Track__POINTS']]
         if not all(close(a, b) for a, b in zip(gz, wz)):
             found.setdefault('seq-nan', (fs, 'filter_seq smooths the heights over their valid samples when the height of the first fix is missing (NaN)',
                                          {'dimensions': dims or 'default', 'kernel': [1.0, 2.0, 1.0], 'z before': [None if v != v else v for v in zin], 'z after': [None if (isinstance(v, float) and v != v) else v for v in gz],
